@@ -454,7 +454,7 @@ def perturb(rng, t):
 
 def generate(ctx):
     from props._stores_util import ensure_budget
-    ensure_budget(ctx)
+    ensure_budget(ctx, quick_scale=3.0)
     rng = ctx.rng
     c = lambda n: ["c", n]  # noqa: E731
     # DESIGN.md section 6 #12 and relatives (all repaired), always
